@@ -1430,6 +1430,8 @@ class Folder:
 
     def c_getattr(self, a, kw):
         o, nme = a[0], a[1]
+        if isinstance(o, Opaque) and o.tag == "callable" and o.label in ("darsia", "da", "np", "cv2", "skimage") and isinstance(nme, str):
+            return Opaque("callable", f"{o.label}.{nme}")   # getattr(package, "Name") names the member Name of the package
         if isinstance(o, Obj) and isinstance(nme, str):
             if nme in o.fields:
                 return o.fields[nme]
